@@ -35,6 +35,8 @@ def _worker(args):
         import threading  # noqa: F401
 
         sys.setrecursionlimit(int(os.environ.get("VERIF_RECURSION", "3000")))
+        # Hypothesis's gc callback may run at the bottom of a deliberately deep stack: not worth a traceback
+        sys.unraisablehook = lambda u: None if isinstance(u.exc_value, RecursionError) else sys.__unraisablehook__(u)
         from harness import core, findings
 
         mod = _load(prop_id)
